@@ -13,6 +13,7 @@ package c10
 
 import (
 	crand "crypto/rand"
+	"crypto/sha256"
 	"encoding/binary"
 	"encoding/hex"
 	"fmt"
@@ -410,6 +411,23 @@ func runTrace(mode, kind, seed string, items []string) (results []string, cands 
 					dt, _ := pseudonymization.NewDataTokenizer(p)
 					return bytesRes(dt.Detokenize(text, ctx, setting(ty, false)))
 				})
+			case "P":
+				// P:<h|t>:cid:ac:ty:key:rty:data – plant a record in the REAL store under the id the tokenizer
+				// will look up: `h` = the consistent-token record of value `key`, payload = data as is;
+				// `t` = the record of token `key`, payload = EncodeTokenValue{Value: data, Type: rty}
+				// (rty "raw": data as is, not a TokenValue encoding at all). Models a damaged store or a
+				// record of another type found under the id.
+				ctx, ty, key, rty, data := ctxOf(f[2], f[3]), f[4], core.UnHex(f[5]), f[6], core.UnHex(f[7])
+				id := recordID(f[1], key, ctx, typeOf[ty])
+				payload := data
+				if f[1] == "t" && rty != "raw" {
+					enc, err := common.EncodeTokenValue(&common.TokenValue{Value: data, Type: typeOf[rty]})
+					if err != nil {
+						panic("harness: " + err.Error())
+					}
+					payload = enc
+				}
+				_ = s.store.Save(id, ctx, payload) // an occupied id keeps its record (the model's insert-if-absent)
 			case "M":
 				action, ok := actionOf[f[1]]
 				if !ok {
@@ -457,6 +475,25 @@ func runTrace(mode, kind, seed string, items []string) (results []string, cands 
 		events = s.events
 	})
 	return
+}
+
+// recordID recomputes pseudoanonymizer.generateDataID + generateKeyForHash/generateKeyForToken (the ids are
+// validated by the run itself: a planted record is only ever read when the real tokenizer asks for this id).
+func recordID(prefix string, data []byte, ctx common.TokenContext, ty common.TokenType) []byte {
+	const delim = "tokenizator hash delimiter"
+	h := sha256.New()
+	h.Write([]byte(delim))
+	h.Write(data)
+	if len(ctx.AdditionalContext) != 0 {
+		h.Write([]byte("zone"))
+		h.Write(ctx.AdditionalContext)
+	} else {
+		h.Write([]byte("client"))
+		h.Write(ctx.ClientID)
+	}
+	h.Write([]byte(delim))
+	h.Write([]byte(strconv.Itoa(int(ty))))
+	return append([]byte(prefix+"."), h.Sum(nil)...)
 }
 
 func candStr(cs [][]byte) string {
